@@ -19,7 +19,11 @@ from . import core
 PROP = "C05"
 DRIVER = "drv_steps"
 LEAN_MODULES = ["MesaModel.Props.C05"]
-THEOREMS = []
+THEOREMS = ["Mesa.Steps." + t for t in (
+    "C05_increments_exactly_once", "C05_increment_before_user_code", "C05_bodies_are_override_chain",
+    "C05_most_derived_override_runs_first", "C05_next_body_only_through_super", "C05_not_overridden_only_counter",
+    "C05_arguments_unchanged", "C05_run_model_exact", "C05_run_model_terminates", "C05_instances_independent",
+    "C05_all_interleavings_count")]
 COUNTS = {"quick": 400, "thorough": 8000}
 EXHAUSTIVE = {"quick": True, "thorough": True}
 TRUSTED = [
